@@ -153,7 +153,7 @@ func init() {
 	}
 	register(&Prop{
 		ID: "C04sem",
-		Rule: "validation of the trusted JavaScript semantics: generated single-template files of the command fragment of Props/C04d (raw text with quotes, backslashes and HTML-special bytes; prints of int / string / bool expressions with no directive, |id, |noAutoescape, |escapeHtml under the three autoescape settings; let with fresh and SHADOWING names; if/elseif/else; foreach with and without ifempty over list parameters and map fields, for over range(…) with one to three arguments (positive literal step), switch on ints / strings with labels of both types, loop variables shadowing parameters; " +
+		Rule: "validation of the trusted JavaScript semantics: generated single-template files of the command fragment of Props/C04d (raw text with quotes, backslashes and HTML-special bytes; prints of int / string / bool expressions with no directive, |id, |noAutoescape, |escapeHtml under the three autoescape settings; let (value and content blocks) with fresh and SHADOWING names; if/elseif/else; foreach with and without ifempty over list parameters and map fields, for over range(…) with one to three arguments (positive literal step), switch on ints / strings with labels of both types, loop variables shadowing parameters; " +
 			"expressions: + - * % on small ints, string concatenation, comparisons, same-type equality, and/or/not, ?:, elvis on a nullable, .k / ?.k / [i] accesses, length, isNonnull, floor/ceiling/round/min/max) x 3 data sets (one of them with missing map fields, null and undefined values, empty lists: TypeErrors and ifempty branches); " +
 			"soyjs.Write's statement text and its run in otto versus renderStmts(toCmds) and its run under Spec/JsStmt.execStmts in the driver, from the same data: text byte for byte, and the completion (output string / TypeError) wherever the semantics is not `unspec`; plus hand-written cases; non-trivial = the engine returns a non-empty string or throws",
 		Gen:         genC04sem,
@@ -419,6 +419,13 @@ func (g *semGen) cmd(d int) string {
 		}
 		return "{" + g.exprOf(t, 2) + dir + "}"
 	case 4, 5:
+		if d > 0 && g.r.Intn(4) == 0 {
+			// a content block: the body writes to a buffer of its own; the name is a string afterwards
+			name := g.bindName()
+			body := g.block(d - 1)
+			g.vars = append(g.vars, semVar{name, semS})
+			return "{let $" + name + "}" + body + "{/let}{$" + name + g.r.Pick([]string{"", "", "|noAutoescape"}) + "}"
+		}
 		t := semTy(g.r.Intn(3))
 		e := g.exprOf(t, 2)
 		name := g.bindName()
@@ -613,6 +620,8 @@ var semHands = []struct{ src, data string }{
 	// switch: === never coerces; null label; several labels; no default
 	{"{namespace sem}\n/** @param n\n @param s */\n{template .t}\n{switch $n}{case '7'}str{case 7, 8}int{default}d{/switch}{switch $s}{case 7}int{case null}null{case 'a', '7'}s{/switch}|\n{/template}\n", "(m (6e (i 7)) (73 (s 37)))"},
 	{"{namespace sem}\n/** @param n\n @param s */\n{template .t}\n{switch $n}{case '7'}str{case 7, 8}int{default}d{/switch}{switch $s}{case 7}int{case null}null{case 'a', '7'}s{/switch}|\n{/template}\n", "(m (6e (s 37)) (73 (n)))"},
+	// content blocks: nested, shadowing, printed with and without escaping
+	{"{namespace sem}\n/** @param n */\n{template .t}\na{let $x}<{$n}{let $n}in&{/let}{$n}>{/let}b{$x}{$x|noAutoescape}{$n}\n{/template}\n", "(m (6e (i 7)))"},
 	// raw text with every escape class
 	{"{namespace sem}\n{template .t}\na'b\"c\\d<e>&f=g{sp}{nil}{\\n}{\\t}{lb}{rb}é \n{/template}\n", "(m)"},
 }
